@@ -9,6 +9,7 @@ case kinds (see RULE for pools and counts):
   var-out  a cell-shaped / dotted name bound as a variable                 model only
   fn       a call tree over custom recording functions                     oracle (replay of the recorded calls) + model
   unk      an unknown call / variable in the hole of a context             oracle (if the hole is reached) + model
+           (also NAME(1,2) alone for every near-documented spelling that is not documented itself)
   sess     one parse step of a session on one or two long-lived parsers    oracle; model when the step is plain
   reunk    an unk context with re-entrant calls EV("5") around the hole    oracle (if the hole is reached) + model
   case     lower- / mixed-case spelling of a registered name               model only
@@ -39,18 +40,20 @@ FUNCTIONS = ['hotxlfp.parser:Parser.__init__', 'hotxlfp.parser:Parser.parse',
              'hotxlfp.grammarparser.lexer:t_RELATIVE_CELL', 'hotxlfp.grammarparser.lexer:t_XLERROR',
              'hotxlfp.grammarparser.lexer:t_error']
 RULE = ('counts: m = 1 quick / 30 thorough and s = 1 quick / 12 thorough, both times scale (5 in quick when the '
-        'fingerprint of a modelled function changed or the Lean build broke); about 4300 cases quick, 77000 thorough. '
+        'fingerprint of a modelled function changed or the Lean build broke); about 4800 cases quick, 77500 thorough. '
         '(var) 32 special names (names of builtins SUM PI IF, sum, extensions TRUEx xTRUE TRUE_ FALSEy NULLz, true null, '
         '_ __, single letters, 12 characters) + 500m seeded names of the VARIABLE shape '
         '^(?![A-Za-z]+[0-9])(?:[A-Za-z][A-Za-z_0-9]+|[A-Za-z_]+)$, lengths 1..12, three shapes (letters and _, letters '
         'only, a letter then letters / _ / digits), each bound by set_variable to a seeded value: int (incl. 2^31 2^63 '
         '10^30 -10^25), float (incl. -0.0 1e300 1e-300), one of 14 texts (empty, blank, TRUE, 12, #N/A, non-ASCII, a '
         'quote, =1+1 ...), logical, None, list of 0..3 values nested to depth 2, datetime, one of the nine error values, '
-        'tuple, dict, set, bytes, complex, host object, object(), function, nan, inf, the type int; 6% are bound instead '
+        'tuple of 0..2 values, dict, set, bytes, complex, host object, object(), function, nan, inf, the type int, an '
+        'exception OBJECT ValueError("boom") (kept as a value, never raised), the exception CLASS KeyError; 6% are bound instead '
         'to a value with an == of its own (EqAll: equal to everything; EqRaises: == with a foreign operand raises '
         'TypeError; EqArray: == returns an object whose truth value raises ValueError); 15% are set twice (the later '
-        'value counts); plus TRUE FALSE NULL each bound to 5, and value_x bound to each of 31 fixed values (one per kind '
-        'above, the three Eq values, the nine error values); oracle: parse(name) gives {result: the value ITSELF '
+        'value counts); plus TRUE FALSE NULL each bound to 5, and value_x bound to each of 33 fixed values (one per kind '
+        'above with two lists [] and [[1], None], the exception object and the exception class, the three Eq values: 24; '
+        'and the nine error values); oracle: parse(name) gives {result: the value ITSELF '
         '(identity, its == is never asked), error: None}, {None, None} for None, {None, its code} for an error value. '
         '(unkvar) the 32 special + 150m seeded names, never set, while another seeded variable is set to 1 on the same '
         'parser -> exactly {result None, error #NAME?}. (predef) TRUE FALSE NULL with nothing set -> the objects True '
@@ -75,9 +78,17 @@ RULE = ('counts: m = 1 quick / 30 thorough and s = 1 quick / 12 thorough, both t
         'argument; array elements and an array inside SUM for each separator; IFERROR / ISERROR nests, either IF branch, '
         'row pairs of G, an error VALUE 1/0 or NA() before the hole) x 4 fills quick (NOSUCH(1) NOSUCH() SUMM(1) '
         'nosuchvar) / 22 fills thorough (NOSUCH sumx SUMM S.U.M F1x A1 zz.top Nope_1 . iff with 0 and with 1 argument, '
-        'nosuchvar, true). Seeded: 700m contexts of depth 0..4 quick / 0..7 thorough (unary minus, either side of a '
+        'nosuchvar, true). Near-documented spellings (both tiers, not scaled; 475 on the unchanged tree): every name of '
+        'FUNCTION shape that is NOT in the documented list but close to it - the Python __name__ of every function in '
+        'formulas.dispatcher._registry_ and of its __wrapped__ (ERROR_TYPE STDEV_P VAR_P), and for every documented name N: '
+        'dots as underscores, dots dropped, underscores as dots, the part before the first dot + .X, N.S, N_ - in sorted '
+        'order, each called as NAME(1,2) in the bare hole. '
+        'Seeded: 700m contexts of depth 0..4 quick / 0..7 thorough (unary minus, either side of a '
         'binary operator, any slot of 1..4-slot calls of the 20 with an optional leading blank slot, array elements, row '
-        'pairs) whose fill is in 20% a seeded variable name + _u, else a seeded or special+q unregistered name called '
+        'pairs) whose fill is in 20% a seeded variable name + _u, else an unregistered name (30% one of the first 15 '
+        'special names + q, else a seeded name that is no builtin; a drawn name that is in the DOCUMENTED list or is ID G '
+        'REACHED is dropped with its case - the draw is judged against the documented list, not against what the '
+        'implementation says it supports; none is dropped on the unchanged tree) called '
         'with 0..3 safe arguments, blank slots, three separators; before the hole only expressions that evaluate without '
         'raising over va=53 vb=2.5 v_c="txt" flag=True (numbers, unary minus, + - * / &, comparisons, SUM ID IF, arrays, '
         'text, TRUE FALSE NULL; the value may be an error VALUE: x/0, NA()), after the hole anything that parses (the '
@@ -85,10 +96,10 @@ RULE = ('counts: m = 1 quick / 30 thorough and s = 1 quick / 12 thorough, both t
         '#NAME? record, judged when the hole is reached exactly once - decided by running the same context on a second '
         'parser with a recording function REACHED (same arguments) in the hole. (sess) 4 fixed + 290s seeded SESSIONS of '
         '3..15 (quick 3..13) set_variable / set_function / parse steps on one or two LONG-LIVED parsers over small name '
-        'pools; one case per parse step (about 1150 quick, 15000 thorough). 150s free sessions: 1..4 function names (40% '
+        'pools; one case per parse step (about 1200 quick, 15700 thorough). 150s free sessions: 1..4 function names (40% '
         'from 19 documented built-ins SUM MAX MIN IF PI ABS IFERROR NA ... ROUND, 20% from the 18 special, 40% seeded), '
         '1..3 variable names (half from 16 incl. SUM PI _ T TRUE FALSE NULL true, half seeded), two parsers in 25%, steps '
-        'parse 50% / set_function 32% / set_variable 18%; functions are bound to fresh-object / arguments / '
+        'parse 50% (the first step 70%) / set_function 32% / set_variable 18%; functions are bound to fresh-object / arguments / '
         "first-argument / constant callables or (10..20%) to RE-ENTRANT ones (lambda t: p.parse(t)['result'] on the same "
         'parser), variables to a small int (45%) or a value of the var pool (no Eq values); formulas: call depth 0..2, '
         '0..3 arguments with blank slots, row pairs 6%, at the root a call, a variable, -call, or call op operand with op '
@@ -133,8 +144,15 @@ TRUSTED = ['the reading of SUPPORTED_FORMULAS.md: the bullets (- or *, the name 
            'heading that starts with "Supported" and the next heading',
            "the shapes VAR_RE / FN_RE that admit generated names are hand copies of the lexer's t_VARIABLE (minus the "
            'cell-like prefix letters+digit) and t_FUNCTION patterns',
-           'values that have no wire form (tuple, dict, set, bytes, complex, objects, functions, types, nan, inf, the Eq '
-           'values) are judged by the oracle only; the model carries them as opaque `other` values (o <type name>), and a '
+           '(unk) the near-documented spellings are computed at run time from that reading of SUPPORTED_FORMULAS.md (the '
+           'spelling variants) and from the __name__ / __wrapped__.__name__ of the values of '
+           'hotxlfp.formulas.dispatcher._registry_ (if reading the registry raises, only the spelling variants are '
+           'generated); "unknown" is decided against the DOCUMENTED list alone - here, in the dropping of seeded fill names '
+           'and in the session oracle (doc_set) - never against is_supported / the registry (gen_fname only uses '
+           'is_supported to avoid drawing a builtin)',
+           'values that have no wire form (tuple, dict, set, bytes, complex, objects, functions, types, nan, inf, the '
+           "exception object ValueError('boom') and the exception class KeyError, the Eq "
+           'values) are judged by the oracle only; the model carries them as opaque `other` values (o <type name>; nan / inf as (o float-nonfinite)), and a '
            'record whose model value is opaque is not compared (the variable-lookup event still is)',
            'model comparison by fx.record_matches / value_matches: exact for ints (a logical is not an int), text, '
            'logicals, error codes, blanks; floats within 4 ulps or 1e-12 relative; datetimes within 2 microseconds (+ '
@@ -152,7 +170,8 @@ TRUSTED = ['the reading of SUPPORTED_FORMULAS.md: the bullets (- or *, the name 
            'unbound variable, custom call, int arithmetic, abort or error value -> blank) - steps where v is not plain (a '
            'built-in call or an operator result other than int + - * inside the inner formula), where one function would '
            'need two constants, where a documented built-in would receive something else than ints, finite floats, text, '
-           'blanks and lists of them (logicals, nan, inf, error values, datetimes, tuples, host objects, results of '
+           'blanks and lists of them (logicals, nan, inf, error values, datetimes, tuples, host objects, exception objects / '
+           'classes, results of '
            'ISERROR AND OR NOT TRUE IF), or whose root operator has operands that are not plainly ints / plain aborts are '
            'judged by the oracle only',
            '(unk) (reunk) reachability of the hole is decided by a probe on a separate parser with the same variables and '
@@ -174,11 +193,19 @@ ASSUMPTIONS = ['names are compared exactly (case-sensitive): the never-set varia
                'parse reports a blank as {result None, error None} and an error VALUE as {result None, error its code}: a '
                'variable bound to None or to an error value, or a custom function returning one at the root, must read like '
                'that',
+               "an exception OBJECT (ValueError('boom')) or an exception CLASS (KeyError) that is bound to a variable or "
+               'returned by a custom function is never raised by the host: it is a value like any other and comes back as the '
+               'very object',
                'set_variable of TRUE FALSE NULL overrides the predefined value; a variable may carry the name of a built-in '
                'function (SUM PI IF) and a custom function the name of a built-in (SUM IF PI TRUE NA ...) or a cell-like / '
                'dotted name (A1, a.b, .)',
                'a documented name "is available" = formulas.is_supported(name) and NAME() is not #NAME?; whatever else the '
                'call without arguments gives (a value, another error, a syntax error) is accepted',
+               'conversely the built-ins are exactly the documented names (the Lean side states it as registered_documented: '
+               'every key of the registry is a documented name): a name that is not in the documented list and was not '
+               'registered by the host is unknown -> #NAME?, also when it is the Python name of an implementing function '
+               '(ERROR_TYPE, VAR_P, STDEV_P) or a near spelling of a documented name (CEILING_MATH, CEILINGMATH, CEILING.X, '
+               'SUM.S, SUM_)',
                '"called with the evaluated arguments": positionally, arguments left to right and before the call (post-order), '
                'left operand before right; a blank slot arrives as None, an array literal as a list, a row pair as two lists',
                'a value evaluated before the unknown call may be an error VALUE (1/0, NA()); only a RAISED error (an error '
